@@ -154,7 +154,7 @@ class time_limit:
         return False
 
 
-CASE_LIMIT_S = {'quick': 75, 'thorough': 900}
+CASE_LIMIT_S = {'quick': 75, 'thorough': 400}
 
 
 class Captured:
